@@ -253,6 +253,12 @@ func (c *Collection) Pull(ctx context.Context, opts ...ReadOption) <-chan *Colle
 		defer close(send)
 		defer verifAt("fwd.exit", send)
 
+		// held is what this receiver was last sent for each id: the equivalence is judged against that rather than
+		// against the previously stored value, otherwise a run of individually equivalent writes drifts away unseen
+		var held map[string]proto.Message
+		if c.equivalence != nil {
+			held = make(map[string]proto.Message, len(currentValues))
+		}
 		if len(currentValues) > 0 {
 			sort.Slice(currentValues, func(i, j int) bool {
 				return currentValues[i].id < currentValues[j].id
@@ -268,6 +274,9 @@ func (c *Collection) Pull(ctx context.Context, opts ...ReadOption) <-chan *Colle
 					LastSeedValue: i == lastIndex,
 				}
 				change = change.filter(filter)
+				if held != nil {
+					held[change.Id] = change.NewValue
+				}
 				select {
 				case <-ctx.Done():
 					return
@@ -286,9 +295,20 @@ func (c *Collection) Pull(ctx context.Context, opts ...ReadOption) <-chan *Colle
 				continue
 			}
 			change = change.filter(filter)
-			if c.equivalence != nil && c.equivalence.Compare(change.OldValue, change.NewValue) {
-				verifAt("fwd.skip", send)
-				continue
+			if c.equivalence != nil {
+				last, ok := held[change.Id]
+				if !ok {
+					last = change.OldValue
+				}
+				if c.equivalence.Compare(last, change.NewValue) {
+					verifAt("fwd.skip", send)
+					continue
+				}
+				if change.NewValue == nil {
+					delete(held, change.Id)
+				} else {
+					held[change.Id] = change.NewValue
+				}
 			}
 			select {
 			case send <- change:
